@@ -27,6 +27,8 @@ for dp, dn, fn in os.walk(os.path.join(root, "typhon")):
                 else:
                     if isinstance(ch, ast.For):
                         names.add("<for>:%s in %s" % (ast.unparse(ch.target), ast.unparse(ch.iter)))
+                    if isinstance(ch, (ast.Assign, ast.Return, ast.AugAssign, ast.AnnAssign)) and isinstance(getattr(ch, "value", None), ast.IfExp):
+                        names.add("<ifexp>:" + ast.unparse(ch))
                     rec(ch, prefix, nested)
         rec(tree, "", False)
         out[rel] = sorted(names)
